@@ -402,12 +402,30 @@ class Env(object):
 _THREAD_ATTRS = set(vars(__import__('threading').Thread()).keys())
 
 
+def _digest(obj):
+    import hashlib
+    return hashlib.sha1(repr(obj).encode()).hexdigest()[:12]
+
+
 def summarize_indication(item):
+    """Kind and key fields of what the provider handed to its user, plus a digest of the complete content (every field of
+    a PDU via pdugen.to_tree; command set and data set of a DIMSE message)."""
     if isinstance(item, tuple) and len(item) == 2:
         msg, pc = item
         ds = getattr(msg, 'data_set', None)
-        return ('DIMSE', type(msg).__name__, pc, len(ds) if isinstance(ds, bytes) else (None if ds is None else 'file'))
+        try:
+            cs = sorted((int(e.tag), str(e.value)) for e in msg.command_set)
+        except Exception as exc:  # noqa
+            cs = 'unreadable command set %r' % (exc,)
+        return ('DIMSE', type(msg).__name__, pc, len(ds) if isinstance(ds, bytes) else (None if ds is None else 'file'),
+                _digest((cs, ds if isinstance(ds, bytes) else None)))
     t = getattr(item, 'pdu_type', None)
+    if t in (1, 2):
+        try:
+            full = _digest(sorted(pdugen.to_tree(item).items(), key=lambda kv: kv[0]))
+        except Exception as exc:  # noqa
+            full = 'untreeable %r' % (exc,)
+        return (ref_pdu.PDU_NAMES[t], str(item.called_ae_title), str(item.calling_ae_title), len(item.variable_items), full)
     if t == 7:
         return ('A-ABORT', item.source, item.reason_diag)
     if t == 3:
